@@ -1394,4 +1394,234 @@ example : ¬ (asciiRealM 4).ok 9218868437227405312 := by decide
 /-- a long has no ASCII form: the one-field program is not well-formed -/
 example : ¬ (RW.prim asciiLong 5 (fun x => RW.done x)).WF := fun h => h.1
 
+/-! ### container attribute ↔ value sequence maps -/
+
+private theorem bandWrite_length {β} (row : List β) (jup jband : Nat) (h : jband ≤ jup) (hr : jup ≤ row.length) :
+    (bandWrite row jup jband).length = jband := by
+  unfold bandWrite
+  simp only [List.length_reverse, List.length_take, List.length_drop]
+  omega
+
+/-- **A whole scatter block survives the record**: flattening all rows of a block into one 7D record (each row's band,
+reversed) and rebuilding the matrix from the record with the same (JJ, JBAND) table gives back every row - for any
+number of rows, any band positions (up-scatter included) and widths inside the matrix, rows zero outside their
+bands. -/
+theorem scat_roundtrip {β} (dflt : β) (ng : Nat) (rows : List (List β × Nat × Nat))
+    (h : ∀ r ∈ rows, r.1.length = ng ∧ r.2.2 ≤ r.2.1 ∧ r.2.1 ≤ ng ∧
+      ∀ c (hc : c < r.1.length), (c < r.2.1 - r.2.2 ∨ r.2.1 ≤ c) → r.1[c] = dflt) :
+    scatUnflatten dflt ng (rows.map (fun r => r.2)) (scatFlatten rows) = rows.map (fun r => r.1) := by
+  induction rows with
+  | nil => rfl
+  | cons r rs ih =>
+    obtain ⟨row, jup, jb⟩ := r
+    obtain ⟨h1, h2, h3, h4⟩ := h (row, jup, jb) (by simp)
+    simp only at h1 h2 h3 h4
+    have hl := bandWrite_length row jup jb h2 (by omega)
+    simp only [List.map_cons, scatFlatten, scatUnflatten]
+    rw [List.take_left' hl, List.drop_left' hl, ih (fun r hr => h r (by simp [hr]))]
+    congr 1
+    have := band_row_roundtrip row dflt jup jb h2 (by omega) h4
+    rw [h1] at this
+    exact this
+
+/-- the COMPXS reader's index list is `reversed(range(group - ndn, group + nup + 1))` -/
+theorem compxsIndices_eq (group nup ndn : Nat) (h : ndn ≤ group) :
+    compxsIndices group nup ndn = (List.range' (group - ndn) (nup + 1 + ndn)).reverse := by
+  unfold compxsIndices bandCols
+  apply List.ext_getElem?
+  intro p
+  by_cases hp : p < nup + 1 + ndn
+  · rw [List.getElem?_reverse (by simpa using hp)]
+    simp only [List.getElem?_map, List.getElem?_range hp, Option.map_some, List.length_range']
+    rw [List.getElem?_range' (by omega)]
+    congr 1; omega
+  · have h1 : ((List.range (nup + 1 + ndn)).map (fun p => group + nup + 1 - 1 - p))[p]? = none := by simp; omega
+    have h2 : ((List.range' (group - ndn) (nup + 1 + ndn)).reverse)[p]? = none := by simp; omega
+    rw [h1, h2]
+
+/-- **A COMPXS scatter column survives the record**: `_flattenScatteringVector` followed by placing the values at
+the reader's indices rebuilds the column, for every group, up-scatter and down-scatter count inside the matrix and a
+column that is zero outside its band. -/
+theorem compxs_column_roundtrip {β} (col : List β) (dflt : β) (group nup ndn : Nat) (h : ndn ≤ group)
+    (hr : group + nup + 1 ≤ col.length)
+    (hout : ∀ c (hc : c < col.length), (c < group - ndn ∨ group + nup + 1 ≤ c) → col[c] = dflt) :
+    bandPlace dflt col.length (compxsIndices group nup ndn) (compxsFlatten col group nup ndn) = col := by
+  unfold compxsIndices compxsFlatten
+  exact band_row_roundtrip col dflt (group + nup + 1) (nup + 1 + ndn) (by omega) hr
+    (fun c hc hcc => hout c hc (by omega))
+
+/-- **Adjoint files store the groups in reverse**: the file order of an ATFLUX / NAFLUX container's groups is the
+reversed list, so writing and reading with the same index map is the identity on the container. -/
+theorem adjointOrder_eq_reverse {β} (c : List β) (d : β) : adjointOrder c d = c.reverse := by
+  unfold adjointOrder
+  have := revGroup_enumerates c.length
+  have h2 : (List.range c.length).map (fun (g : Nat) => c.getD (revGroup (c.length : Int) (g : Int)).toNat d)
+      = ((List.range c.length).map (fun (g : Nat) => (revGroup (c.length : Int) (g : Int)).toNat)).map
+          (fun i => c.getD i d) := by simp [List.map_map, Function.comp_def]
+  rw [h2, this]
+  apply List.ext_getElem?
+  intro i
+  by_cases hi : i < c.length
+  · rw [List.getElem?_reverse hi, List.getElem?_map, List.getElem?_reverse (by simpa using hi)]
+    simp only [List.length_range]
+    rw [List.getElem?_range (by omega)]
+    simp [List.getD_eq_getElem?_getD, List.getElem?_eq_getElem (show c.length - 1 - i < c.length by omega)]
+  · have h1 : (((List.range c.length).reverse).map (fun i => c.getD i d))[i]? = none := by simp; omega
+    have h3 : (c.reverse)[i]? = none := by simp; omega
+    rw [h1, h3]
+
+theorem adjointOrder_involutive {β} (c : List β) (d : β) : adjointOrder (adjointOrder c d) d = c := by
+  rw [adjointOrder_eq_reverse, adjointOrder_eq_reverse, List.reverse_reverse]
+
+example : scatFlatten [([1, 0, 0], 1, 1), ([2, 3, 0], 2, 2), ([0, 4, 5], 3, 2)] = [1, 3, 2, 5, 4] ∧
+    scatUnflatten 0 3 [(1, 1), (2, 2), (3, 2)] [1, 3, 2, 5, 4] = [[1, 0, 0], [2, 3, 0], [0, 4, 5]] := by decide
+example : compxsFlatten [0, 7, 8, 9, 0] 2 1 1 = [9, 8, 7] ∧ compxsIndices 2 1 1 = [3, 2, 1] := by decide
+example : adjointOrder [10, 20, 30] 0 = [30, 20, 10] := by decide
+
+/-! ### the E-format text denotes exactly the 17 digits printed -/
+
+private theorem isDigit_digitChar (d : Nat) (hd : d < 10) : isDigit (digitChar d) = true := by
+  match d, hd with
+  | 0, _ => rfl | 1, _ => rfl | 2, _ => rfl | 3, _ => rfl | 4, _ => rfl
+  | 5, _ => rfl | 6, _ => rfl | 7, _ => rfl | 8, _ => rfl | 9, _ => rfl
+
+private theorem natDigits_all_digits (n : Nat) : ∀ b ∈ natDigits n, isDigit b = true := by
+  induction n using natDigits.induct with
+  | case1 n h => rw [natDigits]; simp only [h, ↓reduceDIte, List.mem_singleton]; rintro b rfl; exact isDigit_digitChar n h
+  | case2 n h ih =>
+    rw [natDigits]; simp only [h, ↓reduceDIte, List.mem_append, List.mem_singleton]
+    rintro b (hb | rfl)
+    · exact ih b hb
+    · exact isDigit_digitChar _ (Nat.mod_lt n (by decide))
+
+private theorem takeWhile_digits (l r : Bytes) (c : UInt8) (hl : ∀ b ∈ l, isDigit b = true) (hc : isDigit c = false) :
+    (l ++ c :: r).takeWhile isDigit = l ∧ (l ++ c :: r).dropWhile isDigit = c :: r := by
+  induction l with
+  | nil => simp [List.takeWhile, List.dropWhile, hc]
+  | cons a l ih =>
+    have ha := hl a (by simp)
+    have := ih (fun b hb => hl b (by simp [hb]))
+    simp [List.takeWhile, List.dropWhile, ha, this.1, this.2]
+
+private theorem takeWhile_digits_end (l : Bytes) (hl : ∀ b ∈ l, isDigit b = true) :
+    l.takeWhile isDigit = l ∧ l.dropWhile isDigit = [] := by
+  induction l with
+  | nil => simp
+  | cons a l ih =>
+    have ha := hl a (by simp)
+    have := ih (fun b hb => hl b (by simp [hb]))
+    simp [List.takeWhile, List.dropWhile, ha, this.1, this.2]
+
+private theorem parseNat_zero_natDigits (n : Nat) : parseNat (48 :: natDigits n) = some n := by
+  rw [parseNat_eq]
+  simp only [List.isEmpty_cons, Bool.false_eq_true, ↓reduceIte, List.foldl_cons]
+  have : pstep (some 0) 48 = some 0 := rfl
+  rw [this, natDigits_fold]
+
+/-- **The text the writer produces for a real denotes exactly its 17 printed digits**: reading it back as a decimal
+number gives sign, the 17-digit integer and the exponent of its last digit - no digit is lost or moved by the
+fixed-width layout (sign column, one digit before the point, two-or-more-digit exponent). -/
+theorem parseEText_eText (neg : Bool) (D : Nat) (k : Int) (hD : 10 ^ 16 ≤ D ∧ D < 10 ^ 17) :
+    parseEText (eText neg D k) = some (neg, D, k - 16) := by
+  have hlen : (natDigits D).length = 17 := by
+    have h1 := natDigits_length D 16 hD.2
+    have h2 := natDigits_length_ge 16 D hD.1
+    omega
+  obtain ⟨d0, tl, hds⟩ : ∃ d0 tl, natDigits D = d0 :: tl := by
+    cases h : natDigits D with
+    | nil => simp [h] at hlen
+    | cons a l => exact ⟨a, l, rfl⟩
+  have htl : tl.length = 16 := by rw [hds] at hlen; simpa using hlen
+  have hall := natDigits_all_digits D
+  rw [hds] at hall
+  -- the exponent digits
+  obtain ⟨einit, ed, hed, hedw⟩ := natDigits_last_not_ws k.natAbs
+  -- eds: the exponent digits (at least two)
+  obtain ⟨eds, heds, hedsall, hedslast, hedsparse⟩ : ∃ eds : Bytes,
+      (if (natDigits k.natAbs).length < 2 then 48 :: natDigits k.natAbs else natDigits k.natAbs) = eds ∧
+      (∀ b ∈ eds, isDigit b = true) ∧ (∃ i, eds = i ++ [ed]) ∧ parseNat eds = some k.natAbs := by
+    refine ⟨_, rfl, ?_, ?_, ?_⟩
+    · split
+      · intro b hb
+        rcases List.mem_cons.1 hb with rfl | hb
+        · rfl
+        · exact natDigits_all_digits _ b hb
+      · exact natDigits_all_digits _
+    · split
+      · exact ⟨48 :: einit, by rw [hed]; rfl⟩
+      · exact ⟨einit, hed⟩
+    · split
+      · exact parseNat_zero_natDigits _
+      · exact parseNat_natDigits _
+  obtain ⟨ei, hei⟩ := hedslast
+  have htext : eText neg D k =
+      32 :: (if neg then 45 else 43) :: d0 :: 46 :: (tl ++ 69 :: (if k < 0 then 45 else 43) :: eds) := by
+    unfold eText
+    simp only [hds, heds]
+    simp
+  have hd0 : isDigit d0 = true := hall d0 (by simp)
+  have htl : ∀ b ∈ tl, isDigit b = true := fun b hb => hall b (by simp [hb])
+  -- rstrip: the text ends in a digit
+  have hrs : rstrip (eText neg D k) = eText neg D k := by
+    rw [htext, hei]
+    have : (32 : UInt8) :: (if neg then 45 else 43) :: d0 :: 46 :: (tl ++ 69 :: (if k < 0 then 45 else 43) :: (ei ++ [ed]))
+        = ((32 : UInt8) :: (if neg then 45 else 43) :: d0 :: 46 :: (tl ++ 69 :: (if k < 0 then 45 else 43) :: ei)) ++ [ed] := by
+      simp
+    rw [this, rstrip_of_last _ _ hedw]
+  unfold parseEText
+  rw [hrs, htext]
+  have t1a : ∀ X : Bytes, (d0 :: 46 :: X).takeWhile isDigit = [d0] := fun X => by
+    have := (takeWhile_digits [d0] X 46 (by simpa using hd0) rfl).1; simpa using this
+  have t1b : ∀ X : Bytes, (d0 :: 46 :: X).dropWhile isDigit = 46 :: X := fun X => by
+    have := (takeWhile_digits [d0] X 46 (by simpa using hd0) rfl).2; simpa using this
+  have t2a : ∀ X : Bytes, (tl ++ 69 :: X).takeWhile isDigit = tl := fun X => (takeWhile_digits tl X 69 htl rfl).1
+  have t2b : ∀ X : Bytes, (tl ++ 69 :: X).dropWhile isDigit = 69 :: X := fun X => (takeWhile_digits tl X 69 htl rfl).2
+  have hpn : parseNat ([d0] ++ tl) = some D := by
+    have := parseNat_natDigits D
+    rw [hds] at this
+    simpa using this
+  have hws : ∀ (sg : UInt8) (X : Bytes), isWs sg = false → List.dropWhile isWs (32 :: sg :: X) = sg :: X := by
+    intro sg X h
+    have h32 : isWs 32 = true := by decide
+    simp [List.dropWhile_cons, h, h32]
+  have hfl : (tl.length : Int) = 16 := by omega
+  cases neg <;> by_cases hk : k < 0
+  all_goals
+    simp only [Bool.false_eq_true, ↓reduceIte, hk]
+    first
+    | rw [hws 43 _ (by decide)]
+    | rw [hws 45 _ (by decide)]
+    simp only [t1a, t1b, t2a, t2b, parseSignedNat, hedsparse, hpn, Option.map_some, hfl]
+    simp
+    omega
+
+/-- **What `float()` sees in a real field**: for a non-zero finite value whose 17 printed digits are in range, the
+field's text denotes exactly ±D·10^(k-16) with (D, k) = `floatDigits` - so "the value reads back"
+(the last conjunct of `asciiRealM.ok`) is the purely arithmetical statement `roundToDouble neg D (k-16) = some n`. -/
+theorem parseFloatText_asciiFloatField (neg : Bool) (mant : Nat) (e2 : Int) (hm : mant ≠ 0)
+    (hD : 10 ^ 16 ≤ (floatDigits mant e2).1 ∧ (floatDigits mant e2).1 < 10 ^ 17) :
+    parseFloatText (asciiFloatField neg mant e2) =
+      roundToDouble neg (floatDigits mant e2).1 ((floatDigits mant e2).2 - 16) := by
+  unfold parseFloatText asciiFloatField
+  simp only [hm, ↓reduceIte]
+  rw [parseEText_eText neg _ _ hD]
+
+example : floatDigits 3 (-1) = (15000000000000000, 0) ∧ eText false 15000000000000000 0 = asciiFloatField false 3 (-1) := by
+  decide +kernel
+
+/-- **Re-writing what was read, ASCII**: reading an ASCII file the writer produced and writing what was read gives
+the same text - for every file program over the Ascii routines, hence (next theorem) for every schema. -/
+theorem write_read_write_ascii {α} (f : File α) (hf : f.AsciiM) (h : f.WF asciiFrame) (rest : Bytes) :
+    ((f.reseed asciiFrame ((f.write asciiFrame).1 ++ rest)).write asciiFrame).1 ++ rest
+      = (f.write asciiFrame).1 ++ rest :=
+  (file_rewrite_identical asciiFrame f _ rest _ (file_roundtrip_ascii f hf h rest)
+    (written_file_canon asciiFrame asciiInt_roundtrip f (File.AsciiM.rt f hf) h rest)).1
+
+theorem schema_write_read_write_ascii (s : FileS) (env0 : Env) (inp : List Val)
+    (h : (schemaFile asciiCodecsM s env0 inp).WF asciiFrame) (rest : Bytes) :
+    (((schemaFile asciiCodecsM s env0 inp).reseed asciiFrame
+        (((schemaFile asciiCodecsM s env0 inp).write asciiFrame).1 ++ rest)).write asciiFrame).1 ++ rest
+      = ((schemaFile asciiCodecsM s env0 inp).write asciiFrame).1 ++ rest :=
+  write_read_write_ascii _ (schema_asciiM s env0 inp) h rest
+
 end ArmiVerif.Cccc
